@@ -547,6 +547,35 @@ func c13GenArgs(r *Rng, sp, dp c13Paths, o *c13Opts, c15 bool) (src, dst, cls st
 	return
 }
 
+// a destination that holds nothing but a chain of existing directories (the landing path and
+// its ancestors), with foreign owners and, often, the set-group-ID bit: entries created below
+// them inherit the directory's group (and directories the bit) from the kernel, so the copy
+// has to restore the source's owner itself
+func c13Skeleton(r *Rng) []*MNode {
+	names := []string{"n1", "n2", "n3"}
+	depth := 1 + r.Intn(3)
+	var top, cur *MNode
+	for i := 0; i < depth; i++ {
+		mode := uint32(os.ModeDir) | uint32(Pick(r, []int{0755, 0775, 0770, 0777}))
+		if r.Chance(65) {
+			mode |= uint32(os.ModeSetgid)
+		}
+		if r.Chance(15) {
+			mode |= uint32(os.ModeSticky)
+		}
+		st := &types.Stat{Mode: mode, ModTime: int64(1500000000+r.Intn(1000000))*1e9 + int64(r.Intn(1e9)),
+			Uid: uint32(Pick(r, []int{0, 0, 1, 1000})), Gid: uint32(Pick(r, []int{0, 5, 7, 200, 4242}))}
+		n := &MNode{Name: names[i], Stat: st}
+		if cur == nil {
+			top = n
+		} else {
+			cur.Kids = []*MNode{n}
+		}
+		cur = n
+	}
+	return []*MNode{top}
+}
+
 func c13Case(r *Rng, c15 bool) (Sx, string, bool) {
 	to := TreeOpts{MaxEntries: 10, MaxDepth: 3, Types: true, HardLinks: true, Xattrs: true, Owners: true}
 	if c15 || r.Chance(50) {
@@ -558,14 +587,28 @@ func c13Case(r *Rng, c15 bool) (Sx, string, bool) {
 	sv := GenView(r, to)
 	c13FixView(r, sv, true, true)
 	var dv []*MNode
+	skel := false
 	if c15 {
 		to.MaxEntries = 8
 		dv = GenView(r, to)
 		c13FixView(r, dv, true, true)
+	} else if r.Chance(35) {
+		dv = c13Skeleton(r)
+		skel = true
 	}
 	sp, dp := c13Collect(sv), c13Collect(dv)
 	o, ocls := c13GenOpts(r, c15)
 	src, dst, acls := c13GenArgs(r, sp, dp, &o, c15)
+	if skel {
+		// land at or below the END of the chain, so that nothing of the destination lies below
+		// the landing path (C13 is about an otherwise empty destination)
+		last := dv[0].Name
+		for n := dv[0]; len(n.Kids) > 0; n = n.Kids[0] {
+			last += "/" + n.Kids[0].Name
+		}
+		dst = last + Pick(r, []string{"", "/", "/new", "/new/", "/new/deeper"})
+		acls += "+skel"
+	}
 	in := L(ViewSx(sv), ViewSx(dv), S(src), S(dst), o.Sx(), Bool(c15))
 	return in, acls + "/" + ocls, len(sp.all) >= 2
 }
@@ -684,6 +727,29 @@ func c13Directed(g *Gen) {
 			}
 			in := L(ViewSx(sv), ViewSx(nil), S(src), S(dst), o.Sx(), Bool(false))
 			g.Emit(0x1301, in, true, "directed/"+a+"/"+ocls)
+		}
+		// the same into a chain of existing (often set-group-ID, foreign-group) directories:
+		// landing inside the last one, on a new name below it, or merged into it (dir-contents);
+		// with and without a Chown option, sources owned by the caller (0:0) and by others
+		for v := 0; v < 4; v++ {
+			o, ocls := c13GenOptsIndep(r, false)
+			o.wild = false
+			if v%2 == 0 {
+				o.chown = nil
+			}
+			x := c13Node(a, "x", r, "c")
+			if v < 2 {
+				x.Stat.Uid, x.Stat.Gid = 0, 0
+			}
+			sv := []*MNode{c13DirOf("d", r, x, c13Node("file", "s", r, ""))}
+			dv := c13Skeleton(r)
+			last := "n1"
+			for n := dv[0]; len(n.Kids) > 0; n = n.Kids[0] {
+				last += "/" + n.Kids[0].Name
+			}
+			src, dst := Pick(r, []string{"d", "d/x"}), Pick(r, []string{last, last + "/", last + "/new", last + "/new/"})
+			in := L(ViewSx(sv), ViewSx(dv), S(src), S(dst), o.Sx(), Bool(false))
+			g.Emit(0x1301, in, true, "directed-skel/"+a+"/"+ocls)
 		}
 	}
 }
